@@ -180,10 +180,12 @@ def extract_reuse_info(text: str) -> ReuseInfo:
                 # Like find_spdx_tag: if the line is framed with ASCII art,
                 # strip the mirrored comment prefix from the end. Require a
                 # blank before it, so that a holder that merely ends in the
-                # comment character ('# Copyright Team C#') is left alone.
+                # comment character ('# Copyright Team C#') is left alone. A
+                # prefix made of letters ('c', 'dnl') is never a frame.
                 suffix = line[: match.start()].strip()[::-1]
                 if (
                     suffix
+                    and not any(char.isalnum() for char in suffix)
                     and notice.endswith(suffix)
                     and notice[: -len(suffix)][-1:].isspace()
                 ):
